@@ -14,6 +14,25 @@ import (
 // Parser can parse lua statements or expressions
 type Parser struct {
 	scanner Scanner
+	levels  int // current nesting depth of statements and expressions
+}
+
+// The parser and the compiler are recursive, so the nesting of statements and
+// expressions in a chunk is limited (to the same depth as in the reference
+// implementation, see LUAI_MAXCCALLS).
+const maxSyntaxLevels = 200
+
+// enterLevel must be called (with the current token) when starting to parse a
+// construct that can contain itself, leaveLevel when done.
+func (p *Parser) enterLevel(t *token.Token) {
+	p.levels++
+	if p.levels > maxSyntaxLevels {
+		panic(Error{Got: t, Message: "chunk has too many syntax levels"})
+	}
+}
+
+func (p *Parser) leaveLevel() {
+	p.levels--
 }
 
 type Scanner interface {
@@ -24,11 +43,14 @@ type Scanner interface {
 type Error struct {
 	Got      *token.Token
 	Expected string
+	Message  string // If not empty, used instead of "expected ..."
 }
 
 func (e Error) Error() string {
 	expected := e.Expected
-	if e.Got.Type == token.INVALID {
+	if e.Message != "" {
+		expected = e.Message
+	} else if e.Got.Type == token.INVALID {
 		expected = "invalid token: " + expected
 	} else if e.Got.Type == token.UNFINISHED {
 		expected = "unexpected <eof>"
@@ -59,7 +81,7 @@ func ParseExp(scanner Scanner) (exp ast.ExpNode, err error) {
 			}
 		}
 	}()
-	parser := &Parser{scanner}
+	parser := &Parser{scanner: scanner}
 	var t *token.Token
 	exp, t = parser.Exp(parser.Scan())
 	expectType(t, token.EOF, "<eof>")
@@ -79,7 +101,7 @@ func ParseChunk(scanner Scanner) (stat ast.BlockStat, err error) {
 			}
 		}
 	}()
-	parser := &Parser{scanner}
+	parser := &Parser{scanner: scanner}
 	var t *token.Token
 	stat, t = parser.Block(parser.Scan())
 	expectType(t, token.EOF, "<eof>")
@@ -97,6 +119,8 @@ func (p *Parser) Scan() *token.Token {
 
 // Stat parses any statement.
 func (p *Parser) Stat(t *token.Token) (ast.Stat, *token.Token) {
+	p.enterLevel(t)
+	defer p.leaveLevel()
 	switch t.Type {
 	case token.SgSemicolon:
 		return ast.NewEmptyStat(t), p.Scan()
@@ -357,6 +381,8 @@ func (p *Parser) Exp(t *token.Token) (ast.ExpNode, *token.Token) {
 // prefix expression or a power operation (right associatively composed). In
 // other words, any expression that doesn't contain a binary operator.
 func (p *Parser) ShortExp(t *token.Token) (ast.ExpNode, *token.Token) {
+	p.enterLevel(t)
+	defer p.leaveLevel()
 	var exp ast.ExpNode
 	switch t.Type {
 	case token.KwNil:
